@@ -300,7 +300,7 @@ func vC18Basis(d int) [][]float32 {
 func init() {
 	vRegister(&vCheck{
 		ID: "C18", Level: "exploration", Engine: "domainmc",
-		Rule:        "Exhaustive lattice: ALL vectors in A^d (A = 15 values spanning 1e-6..1e6 with signs, d in {1,2}; 7-value sub-alphabet for d=3), all ordered pairs (non-negativity, exact symmetry and zero self-distance for l2/l2^2, l2^2 value, l2 = sqrt(l2^2), cosine range/symmetry/self/value vs float64 / invariance under 4 positive scalings, batch == scalar bit-exact, Preprocess leaves its argument bit-identical, in-place == copying preprocess and unit norm, zero vector rejected), all triples over d=1 (full) and d=2 (sub-alphabet) for the triangle inequality, Norm/Scale/Normalize/NormalizeInPlace against their definitions, plus, for d in {4,5,6,7,8,9,15,16,17,31,33}, every pair of signed unit spikes at every position / all-ones / ramp / alternating vectors (index arithmetic of unrolled loops), plus every pair of structured block-constant / alternating / half-half / nearly-parallel vectors in d in {64, 512}. Tolerance 8*d*2^-23 relative to operand magnitudes. Non-trivial = distinct non-zero pairs on which every cosine law was evaluated.",
+		Rule:        "Exhaustive lattice: ALL vectors in A^d (A = 15 values spanning 1e-6..1e6 with signs, d in {1,2}; 7-value sub-alphabet for d=3), all ordered pairs (non-negativity, exact symmetry and zero self-distance for l2/l2^2, l2^2 value, l2 = sqrt(l2^2), cosine range/symmetry/self/value vs float64 / invariance under 4 positive scalings, batch == scalar bit-exact, Preprocess leaves its argument bit-identical, in-place == copying preprocess and unit norm, zero vector rejected), all triples over d=1 (full) and d=2 (sub-alphabet) for the triangle inequality, Norm/Scale/Normalize/NormalizeInPlace against their definitions, plus, for EVERY d in 4..40 and d in {47,48,49,60,63,65,68,96,100,127,128,129,132,255,256,257,300}, every pair of signed unit spikes at every position / all-ones / ramp / alternating vectors (index arithmetic of unrolled loops), plus every pair of structured block-constant / alternating / half-half / nearly-parallel vectors in d in {64, 512}. Tolerance 8*d*2^-23 relative to operand magnitudes. Non-trivial = distinct non-zero pairs on which every cosine law was evaluated.",
 		Assumptions: []string{"tolerances scaled to float32 accumulation error: 8*d*2^-23 times the operand magnitudes"},
 		Shards: func(tier string) []vShard {
 			var sh []vShard
@@ -338,6 +338,30 @@ func init() {
 					}})
 				}
 			}
+			mk1 := func(name string, vecs [][]float32, tri [][]float32) {
+				sh = append(sh, vShard{Name: name, Run: func(c *vCtx) {
+					t := &vC18{c: c, cfgS: name}
+					for i, a := range vecs {
+						t.helpers(a)
+						for _, b := range vecs {
+							t.pair(a, b)
+						}
+						if i%16 == 0 && c.Expired() {
+							c.Bound = fmt.Sprintf("%s: deadline after %d first vectors", name, i)
+							return
+						}
+					}
+					for _, a := range tri {
+						for _, b := range tri {
+							for _, cc := range tri {
+								t.triangle(a, b, cc)
+							}
+						}
+					}
+					c.Sample(fmt.Sprintf("%s: %d vectors, all pairs", name, len(vecs)))
+					c.Bound = "lattice complete"
+				}})
+			}
 			mk("d1", vAllVecs(vC18A, 1), vAllVecs(vC18A, 1))
 			tri2 := vAllVecs(vC18Sub, 2)
 			mk("d2", vAllVecs(vC18A, 2), tri2)
@@ -346,9 +370,25 @@ func init() {
 			} else {
 				mk("d3", vAllVecs([]float32{0, 1e-3, 1, -1, 1e3}, 3), nil)
 			}
-			for _, d := range []int{4, 5, 6, 7, 8, 9, 15, 16, 17, 31, 33} {
+			// every dimension 4..40 and the neighbourhoods of the usual unrolling widths
+			var dimsB []int
+			for d := 4; d <= 40; d++ {
+				dimsB = append(dimsB, d)
+			}
+			dimsB = append(dimsB, 47, 48, 49, 60, 63, 65, 68, 96, 100, 127, 128, 129, 132, 255, 256, 257, 300)
+			for _, d := range dimsB {
 				bs := vC18Basis(d)
-				mk(fmt.Sprintf("basis-d%d", d), bs, bs[len(bs)-6:])
+				if d > 40 {
+					// one spike sign only beyond d=40 (keeps the pair count quadratic in d, not 4x)
+					var r [][]float32
+					for i, v := range bs {
+						if i >= 2*d || i%2 == 0 {
+							r = append(r, v)
+						}
+					}
+					bs = r
+				}
+				mk1(fmt.Sprintf("basis-d%d", d), bs, bs[len(bs)-3:])
 			}
 			mk("d64", vC18High(64), vC18High(64)[:12])
 			mk("d512", vC18High(512), nil)
